@@ -14,20 +14,25 @@ SHARD = 120
 MB = 1 << 20
 RULE = ("one case = one end-to-end trip (input + output file handler, record -> save on one of the three cassettes -> "
         "fetch -> replay at different paths, the replayed path possibly holding a file already), one sequence (several "
-        "recordings replayed one after another / twice into the same path) or one unit evaluation (_serialize/_deserialize_file, "
+        "recordings replayed one after another / twice into the same path; recordings made one after another of ONE "
+        "recorded path whose file is rewritten in between), one history (one operation handing one path to the input "
+        "and output file handlers 2-5 times, the file rewritten between interceptions with other bytes of the same / "
+        "another length, modification time left to the clock / set to a fixed stamp / put back, in place or through "
+        "os.replace) or one unit evaluation (_serialize/_deserialize_file, "
         "_is_file_above_size_limit on a file of a given size, _get_file_path); non-trivial = a trip, or a limit "
         "evaluation within one byte of the limit, or a non-empty base64 content, or a path lookup with keywords; "
         "distinct = distinct case descriptions")
 ASSUMPTIONS = ["file sizes below 2^53 bytes and a finite limit, so that Python's float comparison size/2^20 > limit is the "
                "exact rational comparison of the model (exercised up to 2^53-1 through a substituted os.path.getsize)",
                "the file does not change between os.path.getsize and read (the theorems do not need it: what was read is "
-               "what is restored)",
+               "what is restored); it may change freely BETWEEN two interceptions, whatever its size and timestamps",
                "jsonpickle's coding of bytes inside the stored JSON is invertible (oracle qp/qp_dec of model A; exercised "
                "end to end on every run through the three real cassettes)",
                "the replayed path can be opened for writing"]
 TRUSTED = ["journalling wrapper around builtins.open / io.open (reads through other OS interfaces are not seen)",
            "fake bucket behind the real S3BasicFacade; scratch files under /tmp/files-scratch-<pid>"]
-THEOREMS = ["C20_file_roundtrip", "C20_limit_honoured", "C20_b64_roundtrip", "C20_b64_alphabet"]
+THEOREMS = ["C20_file_roundtrip", "C20_limit_honoured", "C20_b64_roundtrip", "C20_b64_alphabet", "C20_history_input",
+            "C20_history_output"]
 
 # ---------------------------------------------------------------------------------------------- limits
 
@@ -942,7 +947,7 @@ def search_harder(rng, bad_cases):
 
 MANIFEST = dict(
     design_ref='6/C20',
-    text='Coq theorems for every byte string, path, way of passing the path (keyword / position), file-system and quoted-printable oracle: record -> cassette -> replay writes exactly the recorded bytes at the path of the REPLAYED call (input handler) / yields a holder with exactly those bytes (output handler), also when the content is the placeholder text; above the limit the placeholder is recorded and the file is never opened; the size test is the exact rational comparison size > limit*2^20 with the three boundary corollaries and int(float(env)) for the environment variable; a concrete RFC 4648 base64 codec with b64dec(b64enc b) = b, alphabet and length laws. Model tied to /repo on every run: the real handlers are driven end to end through the real TapeRecorder and the three real cassettes (in-memory, file, S3 over a fake bucket) on contents {empty, all 256 byte values, newlines, placeholder and near-placeholder texts, random binary, multi-MB} x sizes limit-1/limit/limit+1 x explicit float / int / environment limits x keyword / position x static / instance, and at unit level (base64 text, size check, path lookup); Coq compares with the model by vm_compute; the direct predicate (restored bytes == original at the replayed path, holder content == original, above-limit files never opened and recorded as the placeholder) searches for a failing input.',
+    text='Coq theorems for every byte string, path, way of passing the path (keyword / position), file-system and quoted-printable oracle: record -> cassette -> replay writes exactly the recorded bytes at the path of the REPLAYED call (input handler) / yields a holder with exactly those bytes (output handler), also when the content is the placeholder text; above the limit the placeholder is recorded and the file is never opened; the size test is the exact rational comparison size > limit*2^20 with the three boundary corollaries and int(float(env)) for the environment variable; a concrete RFC 4648 base64 codec with b64dec(b64enc b) = b, alphabet and length laws. Model tied to /repo on every run: the real handlers are driven end to end through the real TapeRecorder and the three real cassettes (in-memory, file, S3 over a fake bucket) on contents {empty, all 256 byte values, newlines, placeholder and near-placeholder texts, random binary, multi-MB} x sizes limit-1/limit/limit+1 x explicit float / int / environment limits x keyword / position x static / instance, and at unit level (base64 text, size check, path lookup); Coq compares with the model by vm_compute; the direct predicate (restored bytes == original at the replayed path, holder content == original, above-limit files never opened and recorded as the placeholder) searches for a failing input. Histories on one path (theorems C20_history_input/_output: the k-th recording of a path is made of what the file holds at the k-th interception): the same recorded path intercepted repeatedly - across recordings and 2-5 times inside one operation, by input and output handlers in every order - with the file rewritten in between (same length, modification time stamped / kept / clock, in place / replaced).',
     note='Trusted: Coq kernel + vm_compute; hand-written model; correspondence harness (fake bucket behind the real S3BasicFacade, journalling wrapper around open, substituted os.path.getsize for sizes that cannot be materialised); jsonpickle\'s coding of bytes is an oracle (model A) exercised end to end; float comparison exact for sizes < 2^53.',
     technique='Coq proof (lia + finite sweep over the 64 base64 digits, exact rationals for the limit) + model/implementation correspondence by vm_compute + direct predicate end to end',
 )
